@@ -97,8 +97,24 @@ fn panic_msg(e: Box<dyn std::any::Any + Send>) -> String {
     }
 }
 
+pub static IN_SUBJECT: std::sync::atomic::AtomicBool = std::sync::atomic::AtomicBool::new(false);
+
+/// Panics inside the code under check are verdict material and stay quiet; panics of the harness
+/// itself are printed (and end the shard with a machinery error).
 pub fn quiet_panics() {
-    std::panic::set_hook(Box::new(|_| {}));
+    let default = std::panic::take_hook();
+    std::panic::set_hook(Box::new(move |info| {
+        if !IN_SUBJECT.load(std::sync::atomic::Ordering::Relaxed) {
+            default(info);
+        }
+    }));
+}
+
+pub fn subject<R>(f: impl FnOnce() -> R) -> std::thread::Result<R> {
+    IN_SUBJECT.store(true, std::sync::atomic::Ordering::Relaxed);
+    let r = catch_unwind(AssertUnwindSafe(f));
+    IN_SUBJECT.store(false, std::sync::atomic::Ordering::Relaxed);
+    r
 }
 
 // -------------------------------------------------------------------------------------------
@@ -171,10 +187,10 @@ impl FuseDev {
         self.drain();
         self.send(req);
         let chan: &mut FuseChannel = &mut self.chan;
-        let res = catch_unwind(AssertUnwindSafe(|| {
+        let res = subject(|| {
             let (r, w) = chan.get_request().expect("get_request").expect("channel closed");
             h.serve(r, Writer::FuseDev(w), None)
-        }));
+        });
         let (ret, panic) = match res {
             Ok(r) => (r, None),
             Err(e) => (Err("panic".into()), Some(panic_msg(e))),
@@ -191,11 +207,11 @@ impl FuseDev {
         let fd = self.srv;
         let res = {
             let (rq_mid, wb_mid) = (&mut rq[PAD..PAD + req.len()], &mut wb[PAD..PAD + cap]);
-            catch_unwind(AssertUnwindSafe(|| {
+            subject(|| {
                 let r = Reader::<()>::from_fuse_buffer(FuseBuf::new(rq_mid)).expect("reader");
                 let w = FuseDevWriter::<()>::new(fd, wb_mid).expect("writer");
                 h.serve(r, Writer::FuseDev(w), None)
-            }))
+            })
         };
         let (ret, panic) = match res {
             Ok(r) => (r, None),
@@ -351,7 +367,7 @@ impl Virtio {
         let mut cache = NullCache;
         let q = self.queue();
         let descs = Self::descs(rd, wr);
-        let res = catch_unwind(AssertUnwindSafe(|| -> Result<usize, String> {
+        let res = subject(|| -> Result<usize, String> {
             if descs.is_empty() {
                 return Err("empty chain".into());
             }
@@ -360,7 +376,7 @@ impl Virtio {
             let w = VirtioFsWriter::new(&self.mem, chain).map_err(|e| format!("writer: {:?}", e))?;
             let vu: Option<&mut dyn FsCacheReqHandler> = if with_cache { Some(&mut cache) } else { None };
             h.serve(r, Writer::VirtioFs(w), vu)
-        }));
+        });
         let (ret, panic) = match res {
             Ok(r) => (r, None),
             Err(e) => (Err("panic".into()), Some(panic_msg(e))),
